@@ -272,7 +272,9 @@ def shortest (m : Nat) (e : Int) : Nat × Int :=
         match cmpDec (dlow + dhigh) p (2 * x) den with
         | .gt => (dlow, p)
         | .lt => (dhigh, p)
-        | .eq => (if dlow % 2 = 0 then dlow else dhigh, p)
+        -- an exact tie goes UP (`flt2dec` dragon `format_shortest`: round up iff `2 * remainder >= scale`),
+        -- e.g. 900719925474099.25 prints as 900719925474099.3
+        | .eq => (dhigh, p)
       else if okl then (dlow, p)
       else if okh then (dhigh, p)
       else go fuel (kd + 1)
@@ -676,6 +678,8 @@ def indexOf (key : V) (len : Nat) : Option Nat :=
 
 def getItem (c key : V) : Option V :=
   match c with
+  -- the harness' object `ob`: its only item is the function `kw`
+  | .other 1 => (match key with | .str "f" => some (.other 2) | _ => none)
   | .map xs => mapGet key xs
   | .list xs | .tuple xs => (indexOf key xs.length).bind fun i => xs[i]?
   | .str s => (indexOf key s.length).bind fun i => (s.toList[i]?).map fun ch => .str (String.singleton ch)
@@ -683,6 +687,7 @@ def getItem (c key : V) : Option V :=
 
 def getAttr (c : V) (name : String) : Option V :=
   match c with
+  | .other 1 => if name = "f" then some (.other 2) else none
   | .map xs => mapGet (.str name) xs
   | _ => none
 
@@ -750,11 +755,128 @@ def isUndef : V → Bool
   | .undef | .silent => true
   | _ => false
 
+/-! ### the general call form: `MergeKwargs`, `UnpackLists`, then the harness' callees
+
+`ob` (the harness' object, `.other 1`) answers `ob.m(..)`; its item `f` is the function `kw`
+(`.other 2`), reachable as `ob.f(..)` (method syntax falls back to the item), `ob["f"](..)`,
+`[kw][0](..)`, `{"f": kw}.f(..)`. -/
+
+/-- `UndefinedBehavior::try_iter` as `UnpackLists` uses it (since `fix:` e1cde55: `f(*missing)` fails
+    under Strict and SemiStrict like `f(**missing)` and a `for` loop) -/
+def iterForUnpack (m : Mode) : V → Except Err (List V)
+  | .undef => (match m with
+    | .strict | .semiStrict => .error .undefinedError
+    | _ => .ok [])
+  | .silent | .none => .ok []
+  | .str s => .ok (s.toList.map fun c => .str (String.singleton c))
+  | .list xs | .tuple xs => .ok xs
+  | .map xs => .ok (xs.map (·.1))
+  | _ => .error .invalidOperation
+
+/-- `merge_kwargs` on one `**value`: `assert_iterable`, then it has to be a map -/
+def kwSource (m : Mode) : V → Except Err (List (V × V))
+  | .undef => match m with
+    | .strict | .semiStrict => .error .undefinedError
+    | _ => .error .invalidOperation
+  | .map xs => .ok xs
+  | _ => .error .invalidOperation
+
+/-- keyword pieces in source order into one `ValueMap` (`BuildKwargs` batches and `**` sources merged
+    in order); `none` when there is no keyword argument at all (no `Kwargs` value is passed then) -/
+def mergeKw (m : Mode) : List ArgV → List (V × V) → Except Err (List (V × V))
+  | [], acc => .ok acc
+  | .kw n v :: rest, acc => mergeKw m rest (mapInsert (.str n) v acc)
+  | .kwSplat v :: rest, acc =>
+    (match kwSource m v with
+     | .error e => .error e
+     | .ok ps => mergeKw m rest (ps.foldl (fun a p => mapInsert p.1 p.2 a) acc))
+  | _ :: rest, acc => mergeKw m rest acc
+
+def unpackPos (m : Mode) : List ArgV → Except Err (List V)
+  | [] => .ok []
+  | .pos v :: rest => (match unpackPos m rest with | .error e => .error e | .ok vs => .ok (v :: vs))
+  | .posSplat v :: rest =>
+    (match iterForUnpack m v with
+     | .error e => .error e
+     | .ok xs => match unpackPos m rest with | .error e => .error e | .ok vs => .ok (xs ++ vs))
+  | _ :: rest => unpackPos m rest
+
+/-- `Kwargs::args()` only yields string keys -/
+def strKeys (ps : List (V × V)) : List (String × V) :=
+  ps.filterMap fun p => match p.1 with | .str k => some (k, p.2) | _ => none
+
+def callX (m : Mode) (kind : CallKind) (name : String) (recv : List V) (pieces : List ArgV) : Except Err V :=
+  -- `MergeKwargs` comes before `UnpackLists` in the emitted code
+  match mergeKw m pieces [] with
+  | .error e => .error e
+  | .ok kws => match unpackPos m pieces with
+    | .error e => .error e
+    | .ok pos =>
+      let ks := strKeys kws
+      let known := name == "m" || name == "f" || name == "nosuch"
+      match kind, recv with
+      | .function, [] => if name = "kw" then kwResult pos ks else .error (.named "UnknownFunction")
+      | .filter, [v] => if name = "kwf" then kwResult (v :: pos) ks else .error (.named "unmodelled")
+      | .test, [_] => if name = "kwt" then .ok (.bool ((pos.length + ks.length) % 2 == 0)) else .error (.named "unmodelled")
+      -- `Value::call_method`: the object's own methods, then an item of that name called as a value
+      | .method, [.other 1] =>
+        if name = "m" || name = "f" then kwResult pos ks
+        else if known then .error (.named "UnknownMethod") else .error (.named "unmodelled")
+      | .method, [.map xs] =>
+        if !known then .error (.named "unmodelled") else
+        (match mapGet (.str name) xs with
+         | some (.other 2) => kwResult pos ks
+         | some (.other _) => .error (.named "unmodelled")
+         | some _ => bad
+         | none => .error (.named "UnknownMethod"))
+      | .method, [_] => if known then .error (.named "UnknownMethod") else .error (.named "unmodelled")
+      -- `Value::call`: only the function `kw` is callable
+      | .object, [.other 2] => kwResult pos ks
+      | .object, [.other _] => .error (.named "unmodelled")
+      | .object, [_] => bad
+      | _, _ => .error (.named "unmodelled")
+
 /-- `UndefinedBehavior::is_true` -/
 def truthy (m : Mode) (v : V) : Except Err Bool :=
   match m, v with
   | .strict, .undef => .error .undefinedError
   | _, v => .ok (isTrue v)
+
+/-- `UndefinedBehavior::try_iter` with its error mapped to `InvalidOperation` (as `min`, `max`, `list` do) -/
+def iterUB (m : Mode) (v : V) : Except Err (List V) :=
+  match m, v with
+  | .strict, .undef | .semiStrict, .undef => .error .invalidOperation
+  | _, .undef | _, .silent | _, .none => .ok []
+  | _, .str s => .ok (s.toList.map fun c => .str (String.singleton c))
+  | _, .list xs | _, .tuple xs => .ok xs
+  | _, .map xs => .ok (xs.map (·.1))
+  | _, _ => .error .invalidOperation
+
+/-- `Iterator::min`: the first of several equally small elements -/
+def minV (xs : List V) : V :=
+  (xs.foldl (fun acc x => match acc with
+    | none => some x
+    | some a => if cmpV x a == .lt then some x else some a) none).getD .undef
+
+/-- `Iterator::max`: the last of several equally big elements -/
+def maxV (xs : List V) : V :=
+  (xs.foldl (fun acc x => match acc with
+    | none => some x
+    | some a => if cmpV x a == .lt then some a else some x) none).getD .undef
+
+/-- the `sum` filter: undefined items are skipped, anything that is not a number is an error -/
+def sumV : List V → V → Except Err V
+  | [], acc => .ok acc
+  | x :: xs, acc =>
+    if isUndefV x then sumV xs acc else
+    match x with
+    | .int _ | .float _ => (match add acc x with
+      | .error e => .error e
+      | .ok r => sumV xs r)
+    | _ => bad
+where isUndefV : V → Bool
+  | .undef | .silent => true
+  | _ => false
 
 def filter (m : Mode) (name : String) (args : List V) (kws : List (String × V)) : Except Err V :=
   if name = "kwf" then kwResult args kws
@@ -798,6 +920,20 @@ def filter (m : Mode) (name : String) (args : List V) (kws : List (String × V))
        | _, .list xs | _, .tuple xs => .ok (.list xs)
        | _, .map xs => .ok (.list (xs.map (·.1)))
        | _, _ => bad)
+    | "last", [v], [] =>
+      (match v with
+       | .str s => .ok (match s.toList.getLast? with | none => .undef | some c => .str (String.singleton c))
+       | .list xs | .tuple xs => .ok (xs.getLast?.getD .undef)
+       | _ => bad)
+    | "min", [v], [] => (match iterUB m v with | .error e => .error e | .ok xs => .ok (minV xs))
+    | "max", [v], [] => (match iterUB m v with | .error e => .error e | .ok xs => .ok (maxV xs))
+    | "sum", [v], [] =>
+      (match m, v with
+       | .strict, .undef | .semiStrict, .undef => .error .undefinedError
+       | _, v => match iterUB .lenient v with | .error e => .error e | .ok xs => sumV xs (.int 0))
+    -- a safe string is a string in the value dump
+    | "safe", [.str s], [] => .ok (.str s)
+    | "upper", [.str s], [] => if s.toList.all (·.val < 128) then .ok (.str s.toUpper) else .error (.named "unmodelled")
     | _, _, _ => .error (.named "unmodelled")
 
 /-- `i128::try_from(Value)` including integral floats -/
@@ -815,6 +951,8 @@ def test (m : Mode) (name : String) (args : List V) (kws : List (String × V)) :
   | "integer", [v], [] => .ok (match v with | .int _ => true | _ => false)
   | "float", [v], [] => .ok (match v with | .float _ => true | _ => false)
   | "string", [v], [] => .ok (isStr v)
+  -- the harness' test with arguments: parity of the number of arguments and keyword names
+  | "kwt", _ :: rest, ks => .ok ((rest.length + (ks.foldl (fun acc p => kwInsert p.1 p.2 acc) []).length) % 2 == 0)
   | "eq", [v, o], [] => .ok (eqV v o)
   | "lt", [v, o], [] => .ok (cmpV v o == .lt)
   | "in", [v, o], [] =>
@@ -862,6 +1000,7 @@ def prims : Prims where
   callKw := callKw
   filter := filter
   test := test
+  callX := callX
   -- the traversal tables regenerated from compiler/ast.rs and compiler/codegen.rs
   foldsVariant := fun v => MJ.Gen.asConstArms.contains v
   codegenSpecial := fun s => MJ.Gen.codegenSpecials.contains s
@@ -919,14 +1058,28 @@ def suppNeg (_a : V) : Bool := true
 
 /-- integral floats from 2^53 on as indexes / bounds are not transcribed -/
 def suppGetItem (c key : V) : Bool :=
-  !hasOdd key && !hasOdd c && !bigIntegralFloat key
+  !hasOdd key && !bigIntegralFloat key &&
+  (match c with
+   | .map xs => !hasOddP xs   -- a NaN among the keys: the map's order is not determined by the dump
+   | _ => true)
 
 def suppSlice (_v a b c : V) : Bool := !bigIntegralFloat a && !bigIntegralFloat b && !bigIntegralFloat c
 
 def suppFilter (name : String) (args : List V) (kws : List (String × V)) : Bool :=
-  match filter .lenient name args kws with
-  | .error (.named "unmodelled") => false
-  | _ => true
+  (match filter .lenient name args kws with
+   | .error (.named "unmodelled") => false
+   | _ => true) &&
+  -- comparisons with a NaN around are not transcribed
+  !((name == "min" || name == "max" || name == "sum") && args.any hasOdd)
+
+def suppCallX (kind : CallKind) (name : String) (recv : List V) (pieces : List ArgV) : Bool :=
+  (match callX .lenient kind name recv pieces with
+   | .error (.named "unmodelled") => false
+   | _ => true) &&
+  -- keyword sources with keys that are not strings, or with NaNs, are left to the hoisting oracle
+  pieces.all fun p => match p with
+    | .kwSplat (.map xs) => !hasOddP xs
+    | _ => true
 
 def suppTest (name : String) (args : List V) (kws : List (String × V)) : Bool :=
   match test .lenient name args kws with
